@@ -54,6 +54,8 @@ def run(repo, rep):
         n += 1
         seen_writes[cname] += 1
         who = s.fn.qualname if (s.fn and s.fn.module is m) else (s.fn.key if s.fn else '<module>')
+        if s.fn and s.fn.module is m:
+            who = SS.owner_qualname(repo, s.fn, WRITERS[cname])
         rep.check(who in WRITERS[cname], 'C15.a', '%s:writes:%s:%s' % (who, s.obj.name, s.detail), s.where,
                   'store written only by its registered writers',
                   '%s %s %s; only %s may write that store' % (who, s.detail, s.obj.name, sorted(WRITERS[cname])),
